@@ -169,7 +169,7 @@ Section Safety.
      state, destructs the call's result and leaves the components of its postcondition in the context *)
   Ltac rokt := pose proof HL as HLr; unfold rok, frame in *; rcbn; lia.
   Ltac use S fn :=
-    match goal with |- context [fn ?r' ?l'] =>
+    lazymatch goal with |- context [fn ?r' ?l'] =>
       let Hr' := fresh "Hr" in let Hl' := fresh "Hl" in let P := fresh "P" in let Ha' := fresh "Ha" in
       assert (Hr' : rok r') by rokt;
       assert (Hl' : lok l') by (lokt; rokt);
@@ -182,6 +182,7 @@ Section Safety.
     end.
   (* close a goal [post ..] on a concrete final state from the facts in the context *)
   Ltac done_post :=
+    try (exfalso; match goal with H : Crash <> Crash |- _ => apply H; reflexivity end);
     pose proof HL as HLd; unfold post, ret, err, crash, nofuel; rcbn;
     repeat match goal with |- _ /\ _ => split end;
     try assumption; try (unfold rok, frame in *; rcbn; lia); try lokt; try discriminate; try (intros; discriminate).
@@ -212,13 +213,43 @@ Section Safety.
         specialize (Ppr s eq_refl).
         done_post; rest.
       + exfalso. apply Pfu; [exact I | reflexivity].
-      + exfalso. apply Pcr. reflexivity.
   Qed.
 
   Ltac prims := unfold bnd, rd_u32, rd_val, rd_bytes, status, get_avail, get_pos, get_rd, alloc, enter, note_ub, guard, peek,
                        seek_to_end, seek_rel, seek_to, ret, err, crash, nofuel.
   Ltac brk_bad := match goal with |- context [if r_bad ?r then _ else _] => destruct (r_bad r) eqn:? end.
-  Ltac go := repeat (cbv beta iota zeta; rcbn; first [brk | brk_bad]); cbv beta iota zeta; rcbn.
+  (* replace [avail x] for a compound reader x by its value, once the window invariant of x follows from the context *)
+  Ltac avs :=
+    repeat match goal with
+    | H : context [avail ?x] |- _ =>
+        lazymatch x with
+        | adv _ _ => idtac | set_rd _ _ => idtac | set_max _ _ => idtac | flag _ => idtac | mkR _ _ _ _ => idtac
+        end;
+        let E := fresh "E" in
+        assert (E : avail x = r_max x - r_rd x) by (apply avail_ok; rokt);
+        rewrite E in *; clear E; rcbn
+    | |- context [avail ?x] =>
+        lazymatch x with
+        | adv _ _ => idtac | set_rd _ _ => idtac | set_max _ _ => idtac | flag _ => idtac | mkR _ _ _ _ => idtac
+        end;
+        let E := fresh "E" in
+        assert (E : avail x = r_max x - r_rd x) by (apply avail_ok; rokt);
+        rewrite E in *; clear E; rcbn
+    end.
+  Ltac go := repeat (cbv beta iota zeta; rcbn; avs; first [brk | brk_bad]); cbv beta iota zeta; rcbn; avs.
+
+  Ltac rest ::=
+    pose proof HL as HLq;
+    try (intro HF;
+         match goal with H : _ -> ?x <> Fuel |- ?x <> Fuel => apply H end;
+         unfold fuel_ok, rok, frame in *; rcbn; avs; lia);
+    try (intro HF; exfalso;
+         match goal with H : _ -> Fuel <> Fuel |- _ => apply H; [|reflexivity] end;
+         unfold fuel_ok in *; avs; unfold rok, frame in *; rcbn; lia);
+    try (repeat match goal with H : _ \/ _ |- _ => destruct H end; avs; unfold rok, frame in *; rcbn; first [left; lia | right; lia]);
+    try (let a := fresh "a" in let Hx := fresh "Hx" in intros a Hx;
+         repeat match goal with H : forall b, ?x = Ok b -> _ |- _ => specialize (H _ Hx) end;
+         unfold rok, frame in *; rcbn; lia).
 
   Lemma raw_items_loop_safe k : forall i n acc, safe (fuel_ok k) (fun _ => 0) 0 (raw_items_loop bs k i n acc).
   Proof.
@@ -268,5 +299,97 @@ Section Safety.
               use (IH ltac:(lia) dd acc') (msg_items_loop bs inner kk dd acc') end.
             done_post; rest. }
         all: done_post; rest.
+    Qed.
+
+    Lemma cpp_size_pos ft : ft_fixed ft = true -> 0 < cpp_size ft.
+    Proof. destruct ft; cbn; intro H; try discriminate; reflexivity. Qed.
+
+    Ltac childs := repeat rewrite avail_child by (rewrite ?NOLIM_val; unfold rok in *; rcbn; lia).
+
+    (* MessageField::Unflatten calls SingleUnflatten only when GetNumItemsInFlattenedBuffer said 1, which for a
+       sub-Message needs its 4-byte length word to be there *)
+    Lemma unflat_single_safe ft d : forall r l, rok r -> lok l -> (ft = TMessage -> 4 <= avail r) ->
+      post (fuel_ok lf) (fun r => 28 * d + avail r + 24) 0 r l (unflat_single bs inner ft d r l).
+    Proof.
+      pose proof HL as HL'. intros r l Hr Hl Hpre; pose proof (avail_ok r Hr) as Ha.
+      assert (Hr4 : 4 <= avail r -> rok (adv 4 r)) by (intro; rokt).
+      unfold unflat_single.
+      destruct ft; try specialize (Hpre eq_refl); unfold sub_reader, fresh_reader; prims; rewrite ?W_val, ?NOLIM_val; unfold two32.
+      all: try (go; try (done_post; rest; fail)).
+      all: try (exfalso; lia).
+      all: try (use (Hinner (d + 1)) (inner (d + 1)); match goal with x : res msg |- _ => destruct x end; go; try (done_post; rest; fail)).
+      all: try (use rd_lp_string_safe (rd_lp_string bs); match goal with x : res bytes |- _ => destruct x end; go; try (done_post; rest; fail)).
+    Qed.
+
+    Ltac sizes := cbn [cpp_size] in *; unfold c_SIZEOF_bool, c_SIZEOF_double, c_SIZEOF_float, c_SIZEOF_int64, c_SIZEOF_int32,
+                    c_SIZEOF_int16, c_SIZEOF_int8, c_POINT_FLATTENED_SIZE, c_RECT_FLATTENED_SIZE, c_SIZEOF_Point, c_SIZEOF_Rect in *.
+
+    Lemma unflat_array_safe ft d : ft <> TPointer -> ft <> TTag ->
+      safe (fuel_ok lf) (fun r => 28 * d + avail r + 24) 0 (unflat_array bs fx inner lf ft d).
+    Proof.
+      pose proof HL as HL'. intros Hp Ht r l Hr Hl; pose proof (avail_ok r Hr) as Ha.
+      assert (Hr4 : 4 <= avail r -> rok (adv 4 r)) by (intro; rokt).
+      unfold unflat_array. rewrite Hfx15.
+      destruct ft; try congruence; sizes; prims; rewrite ?W_val.
+      (* the quotient becomes an opaque N variable q with c*q <= avail (lia does not keep N quotients non-negative) *)
+      all: try match goal with |- context [avail ?rr / ?c] =>
+                 pose proof (N.mul_div_le (avail rr) c ltac:(lia));
+                 let q := fresh "q" in set (q := avail rr / c) in *; clearbody q end.
+      all: go; try (done_post; rest; fail).
+      all: try (destruct (fx1 fx); go; try (done_post; rest; fail)).
+      all: try match goal with |- context [fix_items_loop _ ?k ?i ?n ?u ?s ?acc] =>
+             use (fix_items_loop_safe k i n u s acc ltac:(lia)) (fix_items_loop bs k i n u s acc) end.
+      all: try match goal with |- context [msg_items_loop _ _ ?k ?dd ?acc] =>
+             use (msg_items_loop_safe k (le_n k) dd acc) (msg_items_loop bs inner k dd acc) end.
+      all: try match goal with |- context [str_items_loop _ ?k ?i ?n ?acc] =>
+             use (str_items_loop_safe k i n acc) (str_items_loop bs k i n acc) end.
+      all: try match goal with |- context [raw_items_loop _ ?k ?i ?n ?acc] =>
+             use (raw_items_loop_safe k i n acc) (raw_items_loop bs k i n acc) end.
+      all: match goal with x : res items |- _ => destruct x end; go; try (done_post; rest; fail).
+    Qed.
+
+    Lemma ftype_ptr_tag tc : is_ptr_or_tag tc = false -> ftype_of_tc tc <> TPointer /\ ftype_of_tc tc <> TTag.
+    Proof.
+      unfold is_ptr_or_tag, ftype_of_tc. intro H.
+      repeat match goal with |- context [if ?a =? ?b then _ else _] => destruct (N.eqb_spec a b) end;
+        split; try discriminate; cbn in H; try discriminate.
+    Qed.
+
+    Lemma wire_size_msg : wire_size TMessage = 0.
+    Proof. vm_compute. reflexivity. Qed.
+
+    Lemma num_items_spec ft r l : rok r -> lok l ->
+      exists n l', num_items_in_buffer bs ft r l = (Ok n, r, l') /\ lok l' /\ l_al l' = l_al l /\ l_dp l' = l_dp l /\
+                   l_ub l' = l_ub l /\ (ft = TMessage -> n = 1 -> 4 <= avail r).
+    Proof.
+      pose proof HL as HL'. intros Hr Hl; pose proof (avail_ok r Hr) as Ha.
+      unfold num_items_in_buffer. prims. rewrite ?W_val.
+      destruct (N.ltb_spec 0 (wire_size ft)) as [Hw|Hw]; cbv beta iota zeta.
+      - eexists _, l. repeat split; try assumption. intros ->. rewrite wire_size_msg in Hw. lia.
+      - brk; cbv beta iota zeta.
+        + eexists _, l. repeat split; try assumption. intros _ E. discriminate.
+        + destruct ft; eexists _, _; (split; [reflexivity|]); rcbn; repeat split; try lokt; try reflexivity; intros; lia.
+    Qed.
+
+    Lemma unflat_field_safe tc d :
+      safe (fuel_ok lf) (fun r => 28 * d + avail r + 24) 0 (unflat_field bs fx inner lf tc d).
+    Proof.
+      pose proof HL as HL'. intros r l Hr Hl; pose proof (avail_ok r Hr) as Ha.
+      unfold unflat_field. rewrite Hfx16. cbn [andb].
+      destruct (is_ptr_or_tag tc) eqn:Ept; [done_post; rest|].
+      destruct (ftype_ptr_tag tc Ept) as [Hnp Hnt].
+      set (ft := ftype_of_tc tc) in *.
+      destruct (num_items_spec ft r l Hr Hl) as (n & l' & En & Hl' & Eal & Edp & Eub & Hn4).
+      unfold bnd at 1. rewrite En.
+      brk.
+      - unfold bnd.
+        pose proof (unflat_single_safe ft d r l' Hr Hl' ltac:(intro E; apply Hn4; assumption)) as P.
+        destruct (unflat_single bs inner ft d r l') as [[x r2] l2]. unfold post in P.
+        destruct P as (P1 & P2 & P3 & P4 & P5 & P6 & P7 & P8).
+        destruct x; prims; go; done_post; rest.
+      - unfold sub_reader. prims. rewrite NOLIM_val. go.
+        replace (N.min 4294967295 (avail r)) with (avail r) by (unfold rok in *; lia).
+        use (unflat_array_safe ft d Hnp Hnt) (unflat_array bs fx inner lf ft d).
+        match goal with x : res items |- _ => destruct x end; go; done_post; rest.
     Qed.
   End LevelSafe.
